@@ -17,7 +17,7 @@ impl Prop for C14 {
         "C14"
     }
     fn rule_text(&self) -> String {
-        "case = config over every key-producing action form (plain key, output chord, multi, tap-hold variants, tap-dance, one-shot, fork, switch, chords v1/v2, unmod/unshift, use-defsrc, transparent fall-through; nested <= 3) on 1-3 layers, optionally with defoverrides; history holds 1-3 keys and injects OS repeat events at arbitrary ms, including while a tap-hold is undecided. Oracle: each repeat input produces 0 or 1 output; an output is only ever for a key that is down at the OS; if the repeated physical key is the one whose press put still-down output key(s) down, exactly one repeat is produced, for one of them (the non-modifier of a chord rather than its modifiers). non-trivial = at least one repeat output was produced; distinct = config x history hash.".into()
+        "case = config over every key-producing action form (plain key, output chord, multi, tap-hold variants, tap-dance, one-shot, fork, switch, chords v1/v2, unmod/unshift, use-defsrc, transparent fall-through; nested <= 3) on 1-3 layers, optionally with defoverrides (plus an 'override' population: the overridden key reached as a plain key, through transparency / use-defsrc, inside a multi or as an unmapped key); history holds 1-3 keys and injects OS repeat events at arbitrary ms, including while a tap-hold is undecided. Oracle: each repeat input produces 0 or 1 output; an output is only ever for a key that is down at the OS; if the repeated physical key is the one whose press put still-down output key(s) down, exactly one repeat is produced, for one of them (the non-modifier of a chord rather than its modifiers). non-trivial = at least one repeat output was produced; distinct = config x history hash.".into()
     }
     fn runs(&self, tier: Tier) -> u64 {
         match tier {
@@ -66,6 +66,58 @@ impl Prop for C14 {
             ops.push(Op::Gap(50));
             case.ops = ops;
             case.set("pop", "layered");
+            return case;
+        }
+        if r.chance(150) {
+            // 'override' population: a modifier key and a key whose output is the input of an
+            // override - reached as a plain key, through transparency / use-defsrc on one or two
+            // layers, inside a multi, or as an unmapped key - held and repeated in both press orders
+            let pum = r.chance(500);
+            let modk = *r.pick(&["lsft", "lsft", "_", "rsft"]);
+            let bacts = ["b", "_", "use-defsrc", "(multi _ XX)", "(multi lsft _)", "S-b", "(tap-hold 20 20 b lctl)", "(multi b XX)"];
+            let ovs = ["(lsft b) (g)", "(lsft b) (lctl g)", "(b) (h)", "(rsft b) (g)", "(lsft b) (g) (lsft n) (j)", "(lsft n) (j)", "(lsft lctl b) (g) (lsft b) (h)"];
+            let cfg = format!(
+                "(defcfg process-unmapped-keys {})\n(defsrc lsft b k f1)\n(deflayer l0 {modk} {} c (layer-while-held l1))\n(deflayer l1 _ {} _ _)\n(defoverrides {})\n",
+                if pum { "yes" } else { "no" },
+                r.pick(&bacts),
+                r.pick(&["_", "_", "b", "use-defsrc", "z"]),
+                r.pick(&ovs)
+            );
+            let mut case = Case { prop: "C14".into(), seed, cfg, ..Default::default() };
+            let mut keys: Vec<u16> = ["lsft", "b", "k", "f1"].iter().map(|k| oscode_of(k)).collect();
+            if pum {
+                keys.push(oscode_of("n"));
+                keys.push(oscode_of("rsft"));
+            }
+            let typing: Vec<u16> = [oscode_of("b"), oscode_of("n"), oscode_of("k")].into_iter().filter(|c| keys.contains(c)).collect();
+            let mut ops = vec![];
+            let mut down: Vec<u16> = vec![];
+            for _ in 0..r.range(3, 12) {
+                let roll = r.below(100);
+                let typing_down: Vec<u16> = down.iter().copied().filter(|c| typing.contains(c)).collect();
+                if roll < 40 && !typing_down.is_empty() {
+                    ops.push(Op::Repeat(*r.pick(&typing_down)));
+                } else {
+                    let key = *r.pick(&keys);
+                    if down.contains(&key) {
+                        if r.chance(400) {
+                            ops.push(Op::Release(key));
+                            down.retain(|c| *c != key);
+                        }
+                    } else {
+                        ops.push(Op::Press(key));
+                        down.push(key);
+                    }
+                }
+                ops.push(Op::Gap(r.range(21, 40) as u32));
+            }
+            for c in down {
+                ops.push(Op::Release(c));
+                ops.push(Op::Gap(3));
+            }
+            ops.push(Op::Gap(50));
+            case.ops = ops;
+            case.set("pop", "override");
             return case;
         }
         let feats = feat::PLAIN
